@@ -68,15 +68,19 @@ def run(ctx):
         if rng.random() < 0.3:
             # the loop entered at its first body node; an upstream node that could run on its defaults alone is out of scope:
             # it never runs and never counts as pending work (budgets are exact)
-            g["nodes"].append({"name": "prep", "kind": "func", "inputs": ["scale"], "outputs": ["x"], "emit": [], "wait_for": [],
+            g["nodes"].append({"name": "prep", "kind": "func", "inputs": ["scale"], "outputs": ["inc"], "emit": [], "wait_for": [],
                                "defaults": {"scale": 1}, "fn": ["add", 100]})
+            for n in g["nodes"]:
+                if n["name"] == "b1":
+                    n["inputs"] = ["x", "inc"]
             rng.shuffle(g["nodes"])
             g["entrypoints"] = ["b1"]
+            g["entry_inputs"] = {"inc": 1}
         iters = N if not ws else max(N, 1)
         need = (m + 1) * iters + (0 if ws else 1) + (1 if exit_node else 0)
         for fuel in sorted({0, max(0, need - 1), need, need + 1, 200}):      # 0 is a budget too: no superstep at all
             runner = rng.choice(["sync", "async"])
-            rc = dict(base_rc, runner=runner, inputs={"x": 0}, max_iterations=fuel, sched_seed=rng.randint(0, 10**6))
+            rc = dict(base_rc, runner=runner, inputs=dict({"x": 0}, **g.get("entry_inputs", {})), max_iterations=fuel, sched_seed=rng.randint(0, 10**6))
             cases.append((g, rc))
             meta.append({"m": m, "N": N, "ws": ws, "exit": exit_node, "need": need, "fuel": fuel, "family": "L2" if ws else "L1"})
     for N in ([1, 2, 4] if ctx.quick() else range(0, 7)):
@@ -105,6 +109,17 @@ def run(ctx):
         msgs = []
         if md["family"] in ("L1", "L2"):
             m, N, ws = md["m"], md["N"], md["ws"]
+            if m == 1 and not md["exit"] and obs["status"] in ("completed", "failed"):
+                # the model programs of C04_loop_exact / C04_while_exact THEMSELVES (Samples.loop, LoopCount1.loop1), run with this
+                # budget, against the implementation's run: status, body and gate invocation counts, final x
+                prog = "loop" if ws else "loop1"
+                rn = "Sync" if rc["runner"] == "sync" else "Async"
+                lo = f"loop_obs {prog} {rn} {c_nat(md['fuel'])} {c_Z(1)} {c_Z(N)} {c_Z(0)}"
+                st_real = 0 if obs["status"] == "completed" else 1
+                batch.add(i, 120, "triple_nat_eqb", f"(let '(s, _, b, g) := {lo} in (s, b, g))",
+                          f"({c_nat(st_real)}, {c_nat(count(obs, 'b1'))}, {c_nat(count(obs, 'gate'))})")
+                if "x" in obs["values"]:
+                    batch.add(i, 121, "opt_eqb val_eqb", f"(let '(_, v, _, _) := {lo} in v)", f"(Some (VInt {c_Z(obs['values']['x'])}))")
             if md["fuel"] >= md["need"]:
                 # SPEC: the sequential loop
                 spec = f"family_loop {c_bool(ws)} {c_Z(m)} {c_Z(m * N)} {c_Z(0)}"
@@ -170,7 +185,7 @@ def run(ctx):
                 nontrivial.add(("accum1", md["m"], md["N"], md["kind"], md["exit"]))
         return msgs
 
-    obs_all, res = engine.run_cases(ctx, "C04", cases, extra=extra)
+    obs_all, res = engine.run_cases(ctx, "C04", cases, extra=extra, imports=["Samples", "LoopCount", "LoopCount1"])
     ctx.coverage.update(
         evaluations=len(cases), coq_checks=res["n"], distinct_nontrivial=len(nontrivial),
         rule="loop families L1 (gate reads x) / L2 (gate waits on the last body node's emit): body length 1-4, N in 0..12, gate kinds "
